@@ -34,6 +34,7 @@ WS_BODIES = [
     ("id", "ws__"),
     ("seq", (("str", " "), ("str", "\t"))),  # a blank that is not followed by a tab fails after consuming
     ("seq", (("str", " "), ("opt", ("str", "\t")))),
+    ("alt", (("str", " "), ("str", "\t"), ("id", "NEWLINE"))),  # the usual real-world definition
 ]
 COMMENT_BODIES = [
     ("str", "#"),
